@@ -27,6 +27,8 @@ ODE_TEXTS = [
     "u = Conditional(Or(Gt(x, 1.25), Lt(y, 0.0), Gt(a, 1.0)), 2.5, x)\nv5 = Conditional(And(Gt(x, 0.25), Lt(y, 2.0), Gt(a, 1.0), Lt(b, 1.0), Gt(y, 1.5)), 3.5, y)\n"
     "v1 = Conditional(And(Gt(x, 0.75), Lt(y, 2.0), Gt(a, 1.0)), 4.5, y * 2)\nv2 = Conditional(Or(Gt(x, 0.75), Lt(y, 2.0), Gt(a, 3.0), Lt(b, 0.0)), 5.5, y * 3)\n"
     "dx_dt = w - y * x + u + v1\ndy_dt = v5 - y + v2 * 0.125\n",
+    # a state derivative used in other expressions
+    "parameters(\"main\", a=1.5)\nstates(\"main\", x=0.5, y=1.25)\n\nexpressions(\"main\")\ndx_dt = -a * x + y\nr = 2 * dx_dt\ndy_dt = r - y + dx_dt * 0.25\n",
     "parameters(\"membrane\", g=ScalarParam(0.5, unit=\"uS\"), E=ScalarParam(-60.5, unit=\"mV\"), Cm=ScalarParam(1.0, unit=\"uF*cm**-2\"))\nstates(\"membrane\", V=ScalarParam(-87.0, unit=\"mV\"))\n\n"
     "expressions(\"membrane\")\nI = g * (V - E) # uA\ndV_dt = -I / Cm # mV/ms\n",
 ]
